@@ -866,7 +866,16 @@ class GelmanRubin(Contract):
     def env(self, vc):
         return dict(np=np_module(var=np_var))
 
+    @staticmethod
+    def fin_x(c, t):
+        """the concrete chains used in finitised mode (counter-model search and vacuity probe at a fixed, distinguishable input:
+        nonlinear real arithmetic over uninterpreted sums is out of the solver's reach otherwise); native replays use the same"""
+        return (c + 1) * ((t * t) % 7) + c
+
     def requires(self, s):
+        vc = cur()
+        if vc.fin is not None:
+            vc.assume(s.C == 2, s.N == 5, *[X(c, t) == self.fin_x(c, t) for c in range(2) for t in range(5)])
         return [s.R['C'], ('at least two draws per half chain (sample variance defined)', s.R['N']), s.R['D_SM'].q, s.R['D_SV'].q, s.R['D_SG'], s.R['D_SB'], s.R['D_SS'],
                 ('within-sequence variance is positive (chains not all constant)', s.R['W'])]
 
@@ -874,6 +883,8 @@ class GelmanRubin(Contract):
         """The proof script.  Every step is a focused cut (fcut) over named hypotheses:
         row sums (#0 mean, #1 mean inside var, #2 squared deviations) are tied to SM / SV row by row at a generic row r0,
         the three sums over the 2C sequences (#3, #4, #5) to SG / SB / SS; LemmaSumExt / LemmaMonotoneCum instances do the sums."""
+        if cur().fin is not None:
+            return {}                   # finitised mode searches counter-models: the ghost proof steps are not needed there
         sp = s.spec
         n, m = sp.n, sp.m
         R_ = s.R
